@@ -1,7 +1,7 @@
 """C15 Incomplete LU never breaks down and is exact when dropping is off  —  R3 on ?gsisx (MC64 / equilibration / scaling / row-index restore), R5, R4, R9 + twins."""
 from ..facts import Program
 from ..run import Check, AnalysisBroken
-from ..rules import r5_grow, r9_sibling, factor_tail, pivot, misc
+from ..rules import r5_grow, r9_sibling, factor_tail, pivot, misc, r11_kinds
 from ..rules import r3_dispatch as r3
 from ..rules.effects import PathEffects
 from . import _drv, _gssvx, _expert, c19
@@ -91,6 +91,7 @@ def run(tier):
             chk.clause('C15.' + g, 'R3 oracle group `%s` of ?gsisx' % g)
         chk.clause('C15.mc64', 'R3 MC64 path of ?gsisx (D1, D2)')
         chk.clause('C15.tail', 'loop and tail rules of ?gsitrf')
+        r11_kinds.run(chk, 'C15.kinds', prog, cfgname, floor=1900)
         nl = 0
         for p in _drv.PRECS:
             f, fl, leaves = _gssvx.leaves_for(prog, eff, p, ilu=True, tier=tier, split=('Fact', 'Trans', 'Equil', 'A.Stype', 'equed', 'info', 'RowPerm'),
